@@ -84,11 +84,7 @@ def build(force=False):
         rc, out = sh(["timeout", "3000", "make", "-k", "-j16"], cwd=COQ, timeout=3100)
         st["stages"]["make"] = {"rc": rc, "log": out[-12000:]}
         vfiles = [l.strip() for l in open(os.path.join(COQ, "_CoqProject")) if l.strip().endswith(".v")]
-        st["vo"] = {}
-        for v in vfiles:
-            vo = os.path.join(COQ, v[:-2] + ".vo")
-            src = os.path.join(COQ, v)
-            st["vo"][v] = os.path.exists(vo) and os.path.getmtime(vo) >= os.path.getmtime(src)
+        st["vo"] = fresh_vo(vfiles)
         # collect Print Assumptions output per property file from the make log is unreliable under -k/-j;
         # re-run coqc on each compiled property file cheaply (they only contain `exact`)
         st["assumptions"] = {}
@@ -120,6 +116,49 @@ def build(force=False):
     finally:
         fcntl.flock(lock, fcntl.LOCK_UN)
         lock.close()
+
+
+def fresh_vo(vfiles):
+    """which .vo files are up to date after `make -k`: a file whose rebuild failed, or that depends on one, keeps its OLD .vo
+    on disk - those are deleted here so that nothing is ever checked against a stale proof.  Dependencies come from coqdep's
+    .Makefile.d; a .vo is fresh when it exists, is not older than its source and its dependencies are fresh and not newer."""
+    deps = {}
+    dfile = os.path.join(COQ, ".Makefile.d")
+    if os.path.exists(dfile):
+        for line in open(dfile):
+            if ":" not in line:
+                continue
+            lhs, rhs = line.split(":", 1)
+            tg = [t for t in lhs.split() if t.endswith(".vo")]
+            if tg:
+                deps[tg[0]] = [d for d in rhs.split() if d.endswith(".vo")]
+    memo = {}
+
+    def mt(rel):
+        try:
+            return os.path.getmtime(os.path.join(COQ, rel))
+        except OSError:
+            return None
+
+    def fresh(vo):
+        if vo in memo:
+            return memo[vo]
+        memo[vo] = False
+        t = mt(vo)
+        ts = mt(vo[:-1])
+        ok = t is not None and ts is not None and t >= ts
+        for d in deps.get(vo, []):
+            if not fresh(d) or (ok and mt(d) > t):
+                ok = False
+        memo[vo] = ok
+        return ok
+    res = {}
+    for v in vfiles:
+        vo = v + "o"
+        res[v] = fresh(vo)
+        if not res[v] and mt(vo) is not None:
+            os.unlink(os.path.join(COQ, vo))
+    return res
 
 
 def parse_assumptions(out):
